@@ -264,7 +264,44 @@ def case_result(case):
     return core.ok(key=key, outcome=len(vs), violations=vs)
 
 
-CASE_FUNCS = {"structure": case_structure, "seq_par": case_seq_par, "result": case_result}
+def case_two_megacomplexes(case):
+    """two decay megacomplexes of one dataset sharing one initial concentration: each evolves its own compartments from
+    its own entries of the (jointly normalised) initial vector, whatever the order the compartments are declared in"""
+    names = ["s1", "s2", "s3", "s4"]
+    rates = {"k.1": 1.3, "k.2": 0.21, "k.3": 0.6, "k.4": 0.045}
+    w = case["weights"]
+    params = dict(rates, **{f"j.{n}": w[i] for i, n in enumerate(names)})
+    order = case["order"]
+    md = {
+        "megacomplex": {"mA": {"type": "decay", "k_matrix": ["kA"]}, "mB": {"type": "decay", "k_matrix": ["kB"]}},
+        "k_matrix": {"kA": {"matrix": {"s2<-s1": "k.1", "s2<-s2": "k.2"}}, "kB": {"matrix": {"s4<-s3": "k.3", "s4<-s4": "k.4"}}},
+        "initial_concentration": {"j1": {"compartments": [names[i] for i in order], "parameters": [f"j.{names[i]}" for i in order]}},
+        "dataset": {"d1": {"megacomplex": ["mA", "mB"] if not case.get("swap") else ["mB", "mA"], "initial_concentration": "j1"}},
+    }
+    j = np.asarray(w, dtype=float)
+    j = j / j.sum()
+    vs = []
+    t = TIME_AXES["nonuniform"]
+    mcs = md["dataset"]["d1"]["megacomplex"]
+    for idx, mc in enumerate(mcs):
+        own = [0, 1] if mc == "mA" else [2, 3]
+        K = np.array([[-rates["k.1"], 0.0], [rates["k.1"], -rates["k.2"]]]) if mc == "mA" else np.array([[-rates["k.3"], 0.0], [rates["k.3"], -rates["k.4"]]])
+        with warnings.catch_warnings():
+            warnings.simplefilter("ignore")
+            labels, M, _, _ = B.calc_matrix(md, params, "d1", [0.0], t, megacomplex_index=idx)
+        want_labels = [names[i] for i in order if i in own]
+        if sorted(labels) != sorted(want_labels):
+            vs.append(V("megacomplex-reports-foreign-compartments", megacomplex=mc, got=labels, want=want_labels))
+            continue
+        ref = np.array([scipy.linalg.expm(K * tt) @ j[own] for tt in t])
+        ref = ref[:, [own.index(names.index(l)) for l in labels]]
+        err = float(np.abs(M - ref).max())
+        if not err <= 1e-12 * max(1.0, np.abs(ref).max()) * 1e2:
+            vs.append(V("concentrations-differ-from-matrix-exponential/two-megacomplexes", megacomplex=mc, max_abs=err, order=order, weights=w))
+    return core.ok(key=[case["weights"], case["order"], bool(case.get("swap"))], outcome=len(vs), violations=vs)
+
+
+CASE_FUNCS = {"structure": case_structure, "seq_par": case_seq_par, "result": case_result, "two_megacomplexes": case_two_megacomplexes}
 
 
 def structures(n, max_entries=None):
@@ -329,6 +366,12 @@ def run(run: core.Run):
             for kind in ("sequential", "parallel"):
                 sp.append({"n": n, "rates": list(rates), "kind": kind})
     run.map("seq_par", sp)
+    tm = []
+    for weights in ([0.4, 0.1, 0.3, 0.2], [1.0, 0.0, 1.0, 0.0], [0.55, 0.05, 0.3, 0.1], [0.0, 1.0, 0.25, 0.0]):
+        for order in itertools.permutations(range(4)):
+            for swap in (False, True):
+                tm.append({"weights": weights, "order": list(order), "swap": swap})
+    run.map("two_megacomplexes", tm)
     rs = []
     for n in (1, 2, 3):
         sts = structures(n) if n < 3 else [s for s in structures(3) if len(s) <= (3 if quick else 4)]
